@@ -389,7 +389,9 @@ pub fn run(args: &Args) -> i32 {
     tl = tl.merge(sweep_wide_offsets(&ctx, thorough));
     // table x trailing DST rule x leap record at the rule transition (searches; the forward side is C03/C04 territory)
     let rtabs = crate::rulealpha::Tables::build(&cyc);
-    tl = tl.merge(crate::find::sweep_junction(&ctx, &rtabs, false, true));
+    if !args.digest_mode {
+        tl = tl.merge(crate::find::sweep_junction(&ctx, &rtabs, false, true, false));
+    }
     rec.sub("probe_zones", json!({"leap_tables": tabs.len(), "zones": tl.zones, "forward_lookups": fw.0, "searches": tl.searches, "searches_with_gap": tl.with_gap, "normalised_deleted_labels_I5": tl.normalised_deleted}));
     rec.add(fw.0 + tl.searches, fw.1 + tl.nontrivial);
     rec.add_model(fw.0 + tl.searches, fw.0 + tl.searches, fw.0 + tl.searches);
